@@ -30,6 +30,13 @@ class EncodingError(Exception):
 INF = 'inf'
 
 
+class Raising:
+    """value of a call that raises wn.Error when *when* holds (e.g. no common hypernym)"""
+
+    def __init__(self, when, value):
+        self.when, self.value = when, value
+
+
 class Leaf:
     def __init__(self, cond, kind, value=None):
         self.cond, self.kind, self.value = cond, kind, value     # kind: value | inf | error
@@ -58,13 +65,22 @@ class Interp:
                     if isinstance(st.value, ast.Constant):
                         nxt.append((env, cond))
                         continue
-                    self.expr(st.value, env)      # evaluated for the encoding check only
+                    v = self.expr(st.value, env)  # evaluated for the encoding check only
+                    if isinstance(v, Raising):
+                        leaves.append(Leaf(z3.And(cond, v.when), 'error'))
+                        cond = z3.And(cond, z3.Not(v.when))
                     nxt.append((env, cond))
                 elif isinstance(st, ast.Assign):
                     if len(st.targets) != 1 or not isinstance(st.targets[0], ast.Name):
                         raise EncodingError('assignment target: ' + ast.dump(st.targets[0]))
                     env = dict(env)
-                    env[st.targets[0].id] = self.expr(st.value, env)
+                    v = self.expr(st.value, env)
+                    if isinstance(v, Raising):
+                        # the call raises under v.when; execution continues otherwise
+                        leaves.append(Leaf(z3.And(cond, v.when), 'error'))
+                        cond = z3.And(cond, z3.Not(v.when))
+                        v = v.value
+                    env[st.targets[0].id] = v
                     nxt.append((env, cond))
                 elif isinstance(st, ast.Return):
                     v = self.expr(st.value, env)
@@ -247,6 +263,9 @@ def cvc5_opinion(solver):
 # ---------------------------------------------------------------------------
 # the obligations for C14
 
+NOLCS = z3.Bool('no_common_hypernym')
+
+
 def c14_queries():
     import wn.similarity as S
     LOG = z3.Function('log', z3.RealSort(), z3.RealSort())
@@ -277,7 +296,8 @@ def c14_queries():
                     return ics[who]
                 return None
             if isinstance(f, ast.Name) and f.id == '_most_informative_lcs':
-                return z3.Int('lcs_token')
+                # raises wn.Error when the synsets share no hypernym (taxonomy, C13)
+                return Raising(NOLCS, z3.Int('lcs_token'))
             if isinstance(f, ast.Attribute) and f.attr == 'Error':
                 return 0
             return None
@@ -314,7 +334,8 @@ def c14_queries():
 
     # ---- res / jcn / lin -------------------------------------------------------
     ic1, ic2, ic0 = z3.Real('ic1'), z3.Real('ic2'), z3.Real('ic_lcs')
-    icbase = [ic1 >= 0, ic2 >= 0, ic0 >= 0]        # C15: IC >= 0
+    icall = [ic1 >= 0, ic2 >= 0, ic0 >= 0]         # C15: IC >= 0
+    icbase = icall + [z3.Not(NOLCS)]               # ... and the synsets share a hypernym
     for name in ('res', 'jcn', 'lin'):
         fn = load_function(S, name)
         encoded.append('wn.similarity.' + name)
@@ -325,6 +346,9 @@ def c14_queries():
                    LOG).run(fn)
         queries.append(Query(f'{name}: symmetric (the most informative lowest common hypernym is '
                              f'the same in both directions)', icbase, _differ(a, b)))
+        queries.append(Query(f'{name}: wn.Error when the synsets share no hypernym, whatever the IC values',
+                             icall + [NOLCS],
+                             z3.Or(*[lf.cond for lf in a if lf.kind != 'error'] or [z3.BoolVal(False)])))
         queries.append(Query(f'{name}: never raises on IC >= 0', icbase,
                              z3.Or(*[lf.cond for lf in a if lf.kind == 'error'] or [z3.BoolVal(False)])))
         if name == 'res':
@@ -399,6 +423,8 @@ def _monotone_instances(LOG, args):
 
 
 FORMULA_CANARIES = {
+    'lin-zero-before-lcs': ('wn.similarity', "    lcs = _most_informative_lcs(synset1, synset2, ic)\n    ic1 = information_content(synset1, ic)\n    ic2 = information_content(synset2, ic)\n    if ic1 == 0 or ic2 == 0:\n        return 0.0\n",
+                            "    ic1 = information_content(synset1, ic)\n    ic2 = information_content(synset2, ic)\n    if ic1 == 0 or ic2 == 0:\n        return 0.0\n    lcs = _most_informative_lcs(synset1, synset2, ic)\n"),
     'jcn-special-case': ('wn.similarity', "    elif ic1 + ic2 == 2 * ic_lcs:", "    elif ic1 == ic2 == ic_lcs:"),
     'lin-asymmetric': ('wn.similarity', "    return 2 * information_content(lcs, ic) / (ic1 + ic2)",
                        "    return 2 * information_content(lcs, ic) / (ic1 + ic1)"),
@@ -426,6 +452,7 @@ def replay_model(name, model):
     fn = name.split(':')[0]
     m = {k: _num(v) for k, v in (model or {}).items()
          if k in ('d12', 'd21', 'max_depth', 'ic1', 'ic2', 'ic_lcs')}
+    nolcs = (model or {}).get('no_common_hypernym') == 'True'
 
     class FS:
         def __init__(self, tag, dist):
@@ -465,7 +492,11 @@ def replay_model(name, model):
     ics = {'a': m.get('ic1', 0.0), 'b': m.get('ic2', 0.0), 'c': m.get('ic_lcs', 0.0)}
     saved = (S.information_content, S._most_informative_lcs)
     S.information_content = lambda ss, ic: ics[ss.tag]
-    S._most_informative_lcs = lambda s1, s2, ic: FS('c', 0)
+    def fake_lcs(s1, s2, ic):
+        if nolcs:
+            raise wn.Error('no common hypernym')
+        return FS('c', 0)
+    S._most_informative_lcs = fake_lcs
     try:
         f = getattr(S, fn)
         a, b = FS('a', 0), FS('b', 0)
@@ -473,6 +504,8 @@ def replay_model(name, model):
         i1, i2, i0 = ics['a'], ics['b'], ics['c']
         if 'symmetric' in name:
             return same(r1, r2)
+        if 'share no hypernym' in name:
+            return r1[0] == 'error' and r2[0] == 'error'
         if 'never raises' in name:
             return r1[0] == 'value'
         if fn == 'res':
